@@ -1541,7 +1541,7 @@ class TimePoint:
             # leave float noise in the seconds (59.99999999999): work to the
             # microsecond, like the dumper.
             seconds = round(new._second_of_minute, 6)
-            if seconds % 1:
+            if seconds % 1 and float(second_of_minute).is_integer():
                 # Not on a whole second, so the next match cannot be before
                 # the next whole second (and the loop below steps in whole
                 # seconds, so it would never reach the requested value).
